@@ -9,8 +9,10 @@ use stun_rs::{
 
 pub mod c01;
 pub mod c02;
+pub mod c04;
 pub mod c09;
 pub mod c14;
+pub mod c16;
 pub mod c18;
 pub mod c19;
 
@@ -18,8 +20,10 @@ pub fn run(prop: &str, ctx: &mut Ctx) -> Result<(), String> {
     match prop {
         "C01" => c01::run(ctx),
         "C02" => c02::run(ctx),
+        "C04" => c04::run(ctx),
         "C09" => c09::run(ctx),
         "C14" => c14::run(ctx),
+        "C16" => c16::run(ctx),
         "C18" => c18::run(ctx),
         "C19" => c19::run(ctx),
         _ => return Err(format!("unknown property {}", prop)),
